@@ -1034,6 +1034,12 @@ C12_SPECIAL += [
     ("macro_rules_field_names_struct", ALL8,
      "macro_rules! mk { ($name:ident, $f:ident, $g:ident) => { @HEAD@ pub struct $name { pub $f: u8, pub $g: u8, pub tail: u8 } } } mk!(T, this, __other);",
      _twin_body(["T { this: 1, __other: 2, tail: 0 }", "T { this: 1, __other: 3, tail: 0 }", "T { this: 0, __other: 9, tail: 1 }"])),
+    # a where-clause that is present but empty (legal, typical of macro output), next to generated bounds
+    ("empty_where_tuple_struct", ALL8, "pub struct T<G>(pub G, pub u8) where;", _twin_body(["T::<u8>(1, 2)", "T::<u8>(1, 3)", "T::<u8>(0, 9)"])),
+    ("empty_where_named_struct", ALL8, "pub struct T<G> where { pub a: G, pub b: u8 }", _twin_body(["T::<u8> { a: 1, b: 2 }", "T::<u8> { a: 1, b: 3 }", "T::<u8> { a: 0, b: 9 }"])),
+    ("empty_where_enum", ALL7, "pub enum T<'l, G, const N: usize> where { A(G, [u8; N]), B { r: &'l G }, C }",
+     _twin_body(["T::A(1u8, [2u8])", "T::A(1u8, [3u8])", "T::B { r: &7u8 }", "T::C"])),
+    ("where_trailing_comma_only_lifetime", ALL7, "pub struct T<'l, G: 'l>(pub &'l G, pub u8) where 'l: 'l,;", _twin_body(["T::<u8>(&1, 2)", "T::<u8>(&1, 3)", "T::<u8>(&0, 9)"])),
     ("macro_rules_nested_two_levels", ALL8,
      "macro_rules! outer { ($name:ident, $t:ty) => { inner!($name, $t, u8); } } macro_rules! inner { ($name:ident, $t:ty, $u:ty) => { @HEAD@ pub struct $name(pub $t, pub $u); } } outer!(T, u32);",
      _twin_body(["T(1, 2)", "T(1, 3)", "T(0, 9)"])),
